@@ -15,8 +15,13 @@ import (
 	"time"
 )
 
-// Root is the /verif directory.
-var Root = "/verif"
+// Root is the /verif directory (or a snapshot of it: $VERIF_ROOT).
+var Root = func() string {
+	if r := os.Getenv("VERIF_ROOT"); r != "" {
+		return r
+	}
+	return "/verif"
+}()
 
 // Violation is one failing case.
 type Violation struct {
